@@ -37,10 +37,19 @@ type caseC18 struct {
 	// real credentials replace the placeholders (a client that fills in the
 	// token just before connecting).
 	Staged bool `json:"staged,omitempty"`
+	// StagedWire (wire only): the CONNECT is decoded from a frame that carries
+	// placeholder credentials (the user name equal to the client identifier,
+	// as devices do), then the real credentials are put in with the setters.
+	StagedWire bool `json:"staged_wire,omitempty"`
+	// Stale (wire only): one Connect value is decoded twice - first from a
+	// frame carrying the credentials of the A side, then from the anonymous
+	// frame - and then given the credentials with the setters.
+	Stale bool `json:"stale,omitempty"`
 }
 
 func renderBoth(m model.Packet, user, pass []byte, wire bool, flagOnly ...bool) (dump, str string, err error) {
 	staged := len(flagOnly) > 1 && flagOnly[1]
+	stagedWire := len(flagOnly) > 2 && flagOnly[2]
 	m.Username, m.HasUsername = string(user), len(user) > 0
 	m.Password, m.HasPassword = append([]byte(nil), pass...), len(pass) > 0
 	if wire && len(flagOnly) > 0 && flagOnly[0] {
@@ -48,7 +57,38 @@ func renderBoth(m model.Packet, user, pass []byte, wire bool, flagOnly ...bool) 
 	}
 	m.Normalize()
 	var p mq.ControlPacket
-	if wire {
+	if wire && stagedWire {
+		ph := m.Clone()
+		if len(user) > 0 {
+			ph.Username, ph.HasUsername = ph.ClientID, ph.ClientID != ""
+			if ph.Username == "" {
+				ph.Username, ph.HasUsername = "u", true
+			}
+		}
+		if len(pass) > 0 {
+			ph.Password, ph.HasPassword = []byte("p"), true
+		}
+		ph.Normalize()
+		q, e, pan := read(ref.Canonical(&ph))
+		if pan != nil || e != nil {
+			return "", "", fmt.Errorf("decode failed: %v %v", e, pan)
+		}
+		cq, ok := q.(*mq.Connect)
+		if !ok {
+			return "", "", fmt.Errorf("decoded %T", q)
+		}
+		if pan := guard.Call(func() {
+			if len(user) > 0 {
+				cq.SetUsername(string(user))
+			}
+			if len(pass) > 0 {
+				cq.SetPassword(append([]byte(nil), pass...))
+			}
+		}); pan != nil {
+			return "", "", fmt.Errorf("setters on the decoded packet panicked: %v", pan.Value)
+		}
+		p = cq
+	} else if wire {
 		q, e, pan := read(ref.Canonical(&m))
 		if pan != nil || e != nil {
 			return "", "", fmt.Errorf("decode failed: %v %v", e, pan)
@@ -104,11 +144,14 @@ func checkC18(c caseC18) (sig, msg string) {
 	case "pass":
 		c.UserA, c.UserB = nil, nil
 	}
-	d1, s1, err := renderBoth(m.Clone(), c.UserA, c.PassA, c.Wire, c.FlagOnly, c.Staged)
+	if c.Stale && c.Wire {
+		return checkC18Stale(m, c)
+	}
+	d1, s1, err := renderBoth(m.Clone(), c.UserA, c.PassA, c.Wire, c.FlagOnly, c.Staged, c.StagedWire)
 	if err != nil {
 		return "render", err.Error()
 	}
-	d2, s2, err := renderBoth(m.Clone(), c.UserB, c.PassB, c.Wire, c.FlagOnly, c.Staged)
+	d2, s2, err := renderBoth(m.Clone(), c.UserB, c.PassB, c.Wire, c.FlagOnly, c.Staged, c.StagedWire)
 	if err != nil {
 		return "render", err.Error()
 	}
@@ -117,6 +160,64 @@ func checkC18(c caseC18) (sig, msg string) {
 	}
 	if s1 != s2 {
 		return "string-depends-on-credentials", fmt.Sprintf("String output depends on the credential bytes:\n%q\n%q", s1, s2)
+	}
+	return "", ""
+}
+
+// checkC18Stale: one Connect value decodes the frame with the A credentials,
+// then the anonymous frame, and is then given credentials with the setters -
+// the A values in one run, the B values in the other.
+func checkC18Stale(m model.Packet, c caseC18) (sig, msg string) {
+	render := func(user, pass []byte) (string, string, error) {
+		withA := m.Clone()
+		withA.Username, withA.HasUsername = string(c.UserA), len(c.UserA) > 0
+		withA.Password, withA.HasPassword = append([]byte(nil), c.PassA...), len(c.PassA) > 0
+		withA.Normalize()
+		anon := m.Clone()
+		anon.Username, anon.HasUsername, anon.Password, anon.HasPassword = "", false, nil, false
+		anon.Normalize()
+		v := mq.NewConnect()
+		var dump bytes.Buffer
+		var str string
+		var derr error
+		if pan := guard.Call(func() {
+			_, _, b1, _ := ref.Split(ref.Canonical(&withA))
+			_, _, b2, _ := ref.Split(ref.Canonical(&anon))
+			if derr = v.UnmarshalBinary(append([]byte(nil), b1...)); derr != nil {
+				return
+			}
+			if derr = v.UnmarshalBinary(append([]byte(nil), b2...)); derr != nil {
+				return
+			}
+			if len(user) > 0 {
+				v.SetUsername(string(user))
+			}
+			if len(pass) > 0 {
+				v.SetPassword(append([]byte(nil), pass...))
+			}
+			mq.Dump(&dump, v)
+			str = v.String()
+		}); pan != nil {
+			return "", "", fmt.Errorf("panic: %v", pan.Value)
+		}
+		if derr != nil {
+			return "", "", derr
+		}
+		return dump.String(), str, nil
+	}
+	d1, s1, err := render(c.UserA, c.PassA)
+	if err != nil {
+		return "", "" // decoding is judged elsewhere
+	}
+	d2, s2, err := render(c.UserB, c.PassB)
+	if err != nil {
+		return "", ""
+	}
+	if d1 != d2 {
+		return "dump-depends-on-credentials", fmt.Sprintf("Dump output depends on the credential bytes (a Connect value reused for an anonymous frame, then given credentials):\n--- with %q / %q\n%s\n--- with %q / %q\n%s", c.UserA, c.PassA, d1, c.UserB, c.PassB, d2)
+	}
+	if s1 != s2 {
+		return "string-depends-on-credentials", fmt.Sprintf("String output depends on the credential bytes (a Connect value reused for an anonymous frame, then given credentials):\n%q\n%q", s1, s2)
 	}
 	return "", ""
 }
@@ -198,6 +299,27 @@ func TestC18(t *testing.T) {
 			}
 			return []byte(gen.StrN(t, label, n, gen.Opts{SpecValid: true})), false
 		}
+		if rapid.IntRange(0, 39).Draw(t, "oversize") == 0 {
+			// longer than an MQTT string can be (the setters take any length):
+			// what an encoder does with the excess must not depend on the bytes
+			n := rapid.SampledFrom([]int{65535, 65536, 65537, 70000}).Draw(t, "oversizelen")
+			a := bytes.Repeat([]byte{'a'}, n)
+			b := append(bytes.Repeat([]byte{'a'}, n-3), []byte("\u00e9b")...)
+			if rapid.Bool().Draw(t, "oversizeat") && n > 65536 {
+				b = append(append(bytes.Repeat([]byte{'a'}, 65534), []byte("\u00e9")...), bytes.Repeat([]byte{'b'}, n-65536)...)
+			}
+			wire := false
+			c := caseC18{ModelGob: packModel(m), Model: m.String(), UserA: a, UserB: b, PassA: []byte("pw"), PassB: []byte("pw"), Wire: wire}
+			sig, msg := checkC18(c)
+			r.Case(vf.FPs(c.ModelGob, "oversize", fmt.Sprint(n, len(b))), true, "oversize-user-name/api", func() interface{} {
+				return map[string]interface{}{"model": m.String(), "user_name_bytes": n}
+			})
+			if msg != "" {
+				r.Fail("disclosure", c, sig, "%s", msg)
+				t.Fatalf("%s", msg)
+			}
+			return
+		}
 		ua, c1 := pick("userA", 0)
 		ub, c2 := pick("userB", len(ua))
 		pa, c3 := pick("passA", 0)
@@ -208,6 +330,14 @@ func TestC18(t *testing.T) {
 		c.Lone = rapid.SampledFrom([]string{"", "", "", "user", "pass"}).Draw(t, "lone")
 		c.FlagOnly = wire && c.Lone != "" && rapid.Bool().Draw(t, "flagonly")
 		c.Staged = !wire && rapid.IntRange(0, 2).Draw(t, "staged") == 0
+		if wire && !c.FlagOnly {
+			switch rapid.IntRange(0, 5).Draw(t, "wirevariant") {
+			case 0, 1:
+				c.StagedWire = true
+			case 2:
+				c.Stale = true
+			}
+		}
 		sig, msg := checkC18(c)
 		differ := !bytes.Equal(ua, ub) || !bytes.Equal(pa, pb)
 		class := "fresh-secrets"
@@ -222,10 +352,13 @@ func TestC18(t *testing.T) {
 		if c.Lone != "" {
 			class += "/only-" + c.Lone
 		}
-		if c.Staged {
+		if c.Staged || c.StagedWire {
 			class += "/placeholders-first"
 		}
-		r.Case(vf.FPs(c.ModelGob, string(ua), string(ub), string(pa), string(pb), fmt.Sprint(wire, c.Lone, c.FlagOnly, c.Staged)), differ, class, func() interface{} {
+		if c.Stale {
+			class += "/value-reused"
+		}
+		r.Case(vf.FPs(c.ModelGob, string(ua), string(ub), string(pa), string(pb), fmt.Sprint(wire, c.Lone, c.FlagOnly, c.Staged, c.StagedWire, c.Stale)), differ, class, func() interface{} {
 			return map[string]interface{}{"model": m.String(), "user": []string{string(ua), string(ub)}, "password": []string{string(pa), string(pb)}, "wire": wire}
 		})
 		if msg != "" {
